@@ -66,6 +66,8 @@ pub fn stories(prop: &str) -> Vec<Scenario> {
         ops.push(Op::new("tick").n(0));
         ops.push(Op::new("tick").n(1));
         ops.push(Op::new("tick").n(2));
+        // exhaust the limiter's burst allowance first (the drops below are forced draws)
+        ops.push(Op::new("burn").n(2).n(30));
         ops.push(Op::new("drop_all").n(1));
         ops.push(Op::new("drop_all").n(0));
         for _ in 0..30 {
@@ -134,6 +136,33 @@ pub fn stories(prop: &str) -> Vec<Scenario> {
             ],
         )
     };
+    // remove() of the bar above a finished bar, a redraw swallowed by the exhausted limiter, drop
+    // of the finished bar (now first), next painted frame
+    let rm_limited = |p: &str| {
+        multi(
+            p,
+            112,
+            40,
+            60,
+            1,
+            0,
+            vec![
+                add(0, 0, 10, 0, "{obs}X {pos}"),
+                add(0, 0, 10, 0, "{obs}Z {pos}"),
+                add(0, 0, 10, 0, "{obs}C {pos}"),
+                Op::new("tick").n(0),
+                Op::new("tick").n(1),
+                Op::new("tick").n(2),
+                Op::new("burn").n(2).n(30),
+                Op::new("finish").n(1).n(0).s(""),
+                Op::new("mp_remove").n(0),
+                Op::new("tick").n(2),
+                Op::new("drop_all").n(1),
+                Op::new("advance").n(2_000_000_000),
+                Op::new("tick").n(2),
+            ],
+        )
+    };
     match prop {
         "C01" => {
             v.push(f4("C01"));
@@ -155,6 +184,7 @@ pub fn stories(prop: &str) -> Vec<Scenario> {
             ));
         }
         "C02" => {
+            v.push(rm_limited("C02"));
             v.push(f1("C02"));
             v.push(f3("C02"));
             v.push(f11("C02"));
@@ -166,6 +196,7 @@ pub fn stories(prop: &str) -> Vec<Scenario> {
             v.push(f4("C03"));
         }
         "C04" => {
+            v.push(rm_limited("C04"));
             v.push(f11("C04"));
             v.push(f1("C04"));
         }
